@@ -60,6 +60,8 @@ FIRST_LOOK = {  # recorded when the seed was first run, before any rule was touc
  "C18-10": "missed", "C18-11": "missed by C18, caught by C17 (R17d, written a few hours earlier for C17-3)", "C18-12": "caught",
  "C29-10": "missed", "C29-11": "caught", "C29-12": "caught",
  "C35-10": "caught", "C35-11": "caught", "C35-12": "caught (as a renameio entry point other than WriteFile: a policy alarm)",
+ # round 5 (five properties)
+ "C17-4": "missed", "C17-5": "missed", "C17-6": "missed",
  "C10-10": "missed", "C10-11": "missed", "C10-12": "unknown-shape alarm only (a false one: R10e took `Pos{}` in reset() for state; corrected)",
 }
 def key(d):
@@ -88,12 +90,12 @@ for d in sorted(glob.glob("/verif/seeded/C*-*"), key=key):
                         if mm and mm.group(1) not in rules: rules.append(mm.group(1))
                     rule = ", ".join(rules[:3])
     nn = int(name.split("-")[1])
-    rnd = "1" if nn <= 3 else ("2" if nn <= 6 else ("3" if nn <= 9 else "4"))
-    if name.startswith("C17-"): rnd = "4"  # C17 was claimed in round 4; its first seeds were made then
+    rnd = "1" if nn <= 3 else ("2" if nn <= 6 else ("3" if nn <= 9 else ("4" if nn <= 12 else "5")))
+    if name.startswith("C17-"): rnd = "4" if nn <= 3 else "5"  # C17 was claimed in round 4; its first seeds were made then
     fl = FIRST_LOOK.get(name, "" if rnd == "1" else "not recorded")
     if det: caught += 1
     else: missed += 1
     rows.append(f"| {name} | {rnd} | {first} | {', '.join(det) if det else '**missed**'} | {rule} | {fl} |")
 print(f"{caught + missed} seeds: {caught} caught, {missed} missed\n")
-print("| seed | round | change | caught by (now) | rule | first look (rounds 2–4) |\n|---|---|---|---|---|---|")
+print("| seed | round | change | caught by (now) | rule | first look (rounds 2–5) |\n|---|---|---|---|---|---|")
 print("\n".join(rows))
